@@ -30,6 +30,9 @@ claimed = {
  "C05": dict(engine="vsched", tech=SCHED+"; blocking decided by the scheduler, never by a clock", ref="§3/C05",
    text="The same exhaustive schedule exploration judged by the stuck-call oracle (a parked call is legitimate only if the linearized final state does not permit it to proceed), well-formed pipelines must terminate with everything consumed, and the constructor ladder N=0..64 runs under the scheduler so that a self-deadlock is a scheduler fact.",
    note="same bounds as C04"),
+ "C06": dict(engine="vsched", tech=SCHED+"; sleep-set partial-order reduction covers all interleavings where it completes", ref="§3/C06",
+   text="Every interleaving (one execution per Mazurkiewicz trace, by sleep sets) of {caller, feeder, library helper goroutines, one reader per output} for Fork, Split and Split+Join with fan-out 2..3, capacity 1..2 and stream lengths 0..2 (larger ones in the thorough tier) runs on the real code; each output stream is compared with the expected stream, every thread must finish, the caller's wait group must return to zero, nothing may arrive after closure, and every execution is race-checked.",
+   note="sequentially consistent interleavings at synchronisation granularity; the stress clause (sampling) is not a deciding step"),
  "C07": dict(engine="enum", tech=ENUM+" (all pairs and all triples of per-type boundary universes and of a structured mixed universe) + explicit-state search over the collator's private state", ref="§3/C07",
    text="The full RankValues matrix over every boundary universe (bool, every integer width, floats incl. +-0/Inf/NaN/subnormals, a complex grid incl. signed zeros/Inf/NaN, runes, strings, slices, Go maps in every insertion order, typed collections) and over a structured `any` universe of ~300 nested values is computed on the real collator and checked for reflexivity, mirror symmetry, transitivity on all triples and the natural/lexicographic/key-then-value reference order; rebuilt copies must rank Equal; call histories incl. depth-limit panics must not change later answers.",
    note="only the canonical dynamic types are mixed under the any collator; cross-type order is not specified (laws only)"),
